@@ -9,8 +9,8 @@
   `l₁ ~ l₂` of the same container — a statement over ALL seeds and layouts, for all inputs, in
   particular inputs full of ties (equal starts, equal scores, equal coordinates).
 
-  The model is the code with the fixes D11, D26 (C13), 9b15a948 (sorted definition domains: D1701,
-  D1702) and D1703–D1705 (this property's patches) applied; the `…Old` definitions are the code
+  The model is the code with the fixes D11, D26 (C13), 9b15a948 (sorted definition domains: D51,
+  D51b) and D53–D55 (this property's patches) applied; the `…Old` definitions are the code
   before those fixes and carry the negation witnesses.
   Stages owned by other properties (C03 find_protoclusters / apply_cluster_rules, C05 candidate
   formation, C06 create_regions) are not modelled here, see design/C17.md.
@@ -84,7 +84,7 @@ theorem hmmer_perm_invariant (cut : Int → Option Int) (limit : Int) (l₁ l₂
     (h : HitFilter.removeOverlapping cut limit l₁ = .ok out) : HitFilter.removeOverlapping cut limit l₂ = .ok out :=
   C13.hmmer_perm_invariant cut limit l₁ l₂ out hp h
 
-/-! ## stage `uniqueProtoclusters` (Region.get_unique_protoclusters, fix D1704) -/
+/-! ## stage `uniqueProtoclusters` (Region.get_unique_protoclusters, fix D54) -/
 
 /-- the full sentence -/
 def UniqueProtoclustersInvariant : Prop :=
@@ -120,7 +120,7 @@ theorem uniqueProtoclusters_scope_decidable (cross : Bool) (L : Int) (l : List P
     hasKeyTie (protoKey cross L) l = false ↔ KeyInj cross L l :=
   hasKeyTie_false_iff (protoKey cross L) l hn
 
-/-- D1704: before the fix a region not spanning the origin sorted by `(start, −len)` only; two
+/-- D54: before the fix a region not spanning the origin sorted by `(start, −len)` only; two
     protoclusters of *different products* on the same coordinates (H holds!) came out in
     enumeration order -/
 theorem uniqueProtoclustersOld_not_invariant :
@@ -129,14 +129,14 @@ theorem uniqueProtoclustersOld_not_invariant :
       uniqueProtoclusters false 0 l₁ = uniqueProtoclusters false 0 l₂ :=
   ⟨[⟨10, 70, 1, 1⟩, ⟨10, 70, 2, 2⟩], [⟨10, 70, 2, 2⟩, ⟨10, 70, 1, 1⟩], List.Perm.swap _ _ _, by decide, by decide, by decide⟩
 
-/-! ## stages writing out sets of names (fixes D1701, D1702, D1703) -/
+/-! ## stages writing out sets of names (fixes D51, D51b, D53) -/
 
 /-- `CDSResults.to_json`: the "definition_domains" lists do not depend on how the sets iterate -/
 theorem definitionDomainsJson_invariant (d₁ d₂ : List (Int × List Int)) (h : SameDictOfSets d₁ d₂) :
     definitionDomainsJson d₁ = definitionDomainsJson d₂ :=
   definitionDomainsJson_same h
 
-/-- D1701: `list(set)` is the iteration order itself (two-element witness) -/
+/-- D51: `list(set)` is the iteration order itself (two-element witness) -/
 theorem definitionDomainsJsonOld_not_invariant :
     ∃ d₁ d₂ : List (Int × List Int), SameDictOfSets d₁ d₂ ∧ definitionDomainsJsonOld d₁ ≠ definitionDomainsJsonOld d₂ :=
   ⟨[(0, [1, 2])], [(0, [2, 1])], .cons ⟨rfl, List.Perm.swap _ _ _⟩ .nil, by decide⟩
@@ -147,16 +147,16 @@ theorem annotate_invariant (existing : List GeneFn) (prevIds domains : List Int)
     (h : SameDictOfSets d₁ d₂) : annotate existing prevIds d₁ domains = annotate existing prevIds d₂ domains :=
   annotate_same existing prevIds domains h
 
-/-- D1702: before the fix the CORE annotations were added in iteration order -/
+/-- D51b: before the fix the CORE annotations were added in iteration order -/
 theorem annotateOld_not_invariant :
     ∃ d₁ d₂ : List (Int × List Int), SameDictOfSets d₁ d₂ ∧ annotateOld [] [] d₁ [1, 2] ≠ annotateOld [] [] d₂ [1, 2] :=
   ⟨[(0, [1, 2])], [(0, [2, 1])], .cons ⟨rfl, List.Perm.swap _ _ _⟩ .nil, by decide⟩
 
-/-- `run_on_record`: "enabled_types" of the module's JSON (D1703: it was `list(set)`) -/
+/-- `run_on_record`: "enabled_types" of the module's JSON (D53: it was `list(set)`) -/
 theorem enabledTypes_invariant : EnumerationInvariant enabledTypes :=
   fun _ _ h => sortedNames_perm h
 
-/-! ## stage `filterResults` (cluster_prediction.filter_results, fix D1705) -/
+/-! ## stage `filterResults` (cluster_prediction.filter_results, fix D55) -/
 
 /-- the best hit of an overlap group does not depend on how the group set iterates (distinct
     objects sit at distinct positions of the gene's hit list) — equal scores included -/
@@ -171,7 +171,7 @@ theorem filterResults_enumeration_invariant (e₁ e₂ : List FHit → List FHit
     filterResultsE e₁ eqs hits = filterResultsE e₂ eqs hits := by
   simp only [filterResultsE, foldl_filterPassE_same h₁ h₂ eqs hits hu]
 
-/-- before D1705 (`best = list(group)[0]`, first strictly better hit in iteration order):
+/-- before D55 (`best = list(group)[0]`, first strictly better hit in iteration order):
     H: no two different hits of the group have the same bitscore ⇒ invariant … -/
 theorem bestOfGroupOld_invariant_partial : EnumerationInvariantOn NoScoreTies bestOfGroupOld :=
   fun _ _ hn h => groupBest_perm_of_no_ties hn h
